@@ -234,8 +234,13 @@ def ensure_a64(d, verbose=True):
             if missing:
                 raise AnalysisError("rsfacts-aarch64", "no fact file written for %s" % ",".join(missing))
         except AnalysisError as e:
-            with open(failed, "w") as fh:
-                fh.write("%s\n%s" % (e.stage, e.detail))
+            # a failure of the analysed tree (it does not compile) is a property of that tree and is cached; a failure
+            # of the environment (scratch directory removed underneath the build, disk full) is not
+            if not any(t in (e.detail or "") for t in ("does not exist", "No such file", "No space left")):
+                with open(failed, "w") as fh:
+                    fh.write("%s\n%s" % (e.stage, e.detail))
+            else:
+                shutil.rmtree(d, ignore_errors=True)
             raise
         if tree_hash() != h:
             shutil.rmtree(sub, ignore_errors=True)
@@ -288,8 +293,13 @@ def ensure_facts(verbose=True, _retry=0):
             _run_dorafacts(os.path.join(d, "dora.json"))
             _run_rsfacts(os.path.join(d, "rs"))
         except AnalysisError as e:
-            with open(failed, "w") as fh:
-                fh.write("%s\n%s" % (e.stage, e.detail))
+            # a failure of the analysed tree (it does not compile) is a property of that tree and is cached; a failure
+            # of the environment (scratch directory removed underneath the build, disk full) is not
+            if not any(t in (e.detail or "") for t in ("does not exist", "No such file", "No space left")):
+                with open(failed, "w") as fh:
+                    fh.write("%s\n%s" % (e.stage, e.detail))
+            else:
+                shutil.rmtree(d, ignore_errors=True)
             raise
         n = len(glob.glob(os.path.join(d, "rs", "*.json")))
         if n < (1 if PACKAGES else 16):
